@@ -237,3 +237,147 @@ func (c *Ctx) decodeUnknown(n int) decodeTableRes {
 	}
 	return decodeTableRes{}
 }
+
+// rawReaderTable walks a raw reader ([]byte -> []T (, error)) for payloads of 0..2w+1 token bytes (w: the width of
+// T): no length makes it panic; a whole number of elements gives one value per element, element j made of the bytes
+// j*w .. j*w+w-1 in little-endian order and of nothing else. tail: what a trailing partial element yields
+// ("error", "silent" = values or nil with a nil error). known=false when a length cannot be followed.
+func (c *Ctx) rawReaderTable(r *ssa.Function, t onnxType) (known bool, bad, tail string) {
+	if m, ok := c.readerMemo[r]; ok {
+		for _, k := range m.covered {
+			if c.tableCovered == nil {
+				c.tableCovered = map[string]string{}
+			}
+			c.tableCovered[k] = "R13:D3:" + fname(r)
+		}
+		return m.known, m.bad, m.tail
+	}
+	known, bad, tail, covered := c.rawReaderTable1(r, t)
+	if c.readerMemo == nil {
+		c.readerMemo = map[*ssa.Function]readerRes{}
+	}
+	c.readerMemo[r] = readerRes{known, bad, tail, covered}
+	return known, bad, tail
+}
+
+type readerRes struct {
+	known     bool
+	bad, tail string
+	covered   []string
+}
+
+func (c *Ctx) rawReaderTable1(r *ssa.Function, t onnxType) (known bool, bad, tail string, covered []string) {
+	w := t.width
+	if w <= 0 || len(r.Params) != 1 {
+		return false, "", "", nil
+	}
+	st := c.onnxInit()
+	if st == nil {
+		return false, "", "", nil
+	}
+	cov := newCover(r)
+	two := r.Signature.Results().Len() == 2
+	tail = "error"
+	for n := int64(0); n <= 2*w+1; n++ {
+		heap := st.heap.clone()
+		data := make([]pval, n)
+		for i := range data {
+			data[i] = pval{k: pTok, i: int64(i), s: "byte"}
+		}
+		p := &pinterp{c: c, budget: 200000, objects: true, globals: st.globals, cover: cov}
+		panicked := ""
+		p.onPanic = func(fn *ssa.Function, in ssa.Instruction, what string) { panicked = what + " at " + c.pos(in.Pos()) }
+		res, h := p.run(r, []pval{heap.alloc(data)}, 0, heap)
+		if panicked != "" {
+			return true, fmt.Sprintf("a payload of %d bytes makes %s panic: %s", n, fname(r), panicked), tail, nil
+		}
+		if p.aborted || len(res) == 0 || h == nil {
+			return false, "", "", nil
+		}
+		isErr := two && nonNilKind(res[1].k)
+		if two && !isErr && res[1].k != pNil {
+			return false, "", "", nil
+		}
+		var vals []pval
+		switch res[0].k {
+		case pList:
+			vals = h.lists[res[0].i]
+			if vals == nil {
+				return false, "", "", nil
+			}
+		case pNil:
+		default:
+			return false, "", "", nil
+		}
+		if n%w != 0 {
+			if !isErr {
+				tail = "silent"
+			}
+			continue
+		}
+		k := n / w
+		if isErr {
+			return true, fmt.Sprintf("a payload of %d bytes (%d whole elements of %d bytes) is refused", n, k, w), tail, nil
+		}
+		if int64(len(vals)) != k {
+			return true, fmt.Sprintf("a payload of %d bytes gives %d values, %d elements of %d bytes are in it: the element width is not %d", n, len(vals), k, w, w), tail, nil
+		}
+		for j, e := range vals {
+			if e.k != pTok {
+				return false, "", "", nil
+			}
+			parts := strings.Split(e.s, "|")
+			wantHead := fmt.Sprintf("le%d", w*8)
+			if w == 1 {
+				wantHead = "byte"
+			}
+			switch {
+			case e.i != int64(j)*w:
+				return true, fmt.Sprintf("value %d of a payload of %d bytes is read at byte %d, its element starts at byte %d", j, n, e.i, int64(j)*w), tail, nil
+			case parts[0] != wantHead:
+				return true, fmt.Sprintf("value %d is decoded as %s, the element is %d bytes in little-endian order", j, parts[0], w), tail, nil
+			}
+			nCmp := 0
+			for _, st := range parts[1:] {
+				if st != "" && st != "bits" && !strings.HasPrefix(st, "conv:") {
+					nCmp++
+				}
+			}
+			if nCmp > 1 || (nCmp == 1 && t.goT != types.Bool) {
+				return true, fmt.Sprintf("value %d is not the element itself (operations %q)", j, e.s), tail, nil
+			}
+		}
+	}
+	if unc := cov.uncovered(c); len(unc) > 0 {
+		c.declined("raw reader table of "+fname(r), unc)
+		return false, "", "", nil
+	}
+	// the functions this table walked in full are free of panics for every payload length it tried
+	if c.tableCovered == nil {
+		c.tableCovered = map[string]string{}
+	}
+	for fn := range cov.fns {
+		if isLibFn(fn) {
+			c.tableCovered["reader:"+fname(fn)] = "R13:D3:" + fname(r)
+			covered = append(covered, "reader:"+fname(fn))
+		}
+	}
+	return true, "", tail, covered
+}
+
+// onnxInit: the state after the variable initialisers of package onnx (generated registration code skipped).
+func (c *Ctx) onnxInit() *initState {
+	if c.onnxInitMemo != nil {
+		if len(c.onnxInitMemo.failed) > 0 {
+			return nil
+		}
+		return c.onnxInitMemo
+	}
+	p0 := &pinterp{c: c, budget: 5000000, objects: true}
+	h := p0.initGlobals(newHeap(), pkgOnnx)
+	c.onnxInitMemo = &initState{globals: p0.globals, heap: h, failed: p0.initFailed}
+	if len(p0.initFailed) > 0 {
+		return nil
+	}
+	return c.onnxInitMemo
+}
